@@ -1,6 +1,8 @@
 /-
   Helper lemmas for C17 (mod= masks): bit algebra of and/or masks, the model's symbolic
-  loop on clauses of the supported forms.  Not property theorems.
+  loop on clauses of the supported forms; the name `parseLine` stores (`parseLineFields_name`:
+  options never touch it, the name check stores the cleaned second field or nothing).
+  Not property theorems.
 -/
 import Lc.Model.StageLine
 import Lc.Spec.Chmod
@@ -266,5 +268,110 @@ theorem render_not_octal (cs : List SClause) (hne : cs ≠ []) : (renderMode cs)
     refine ⟨_, hmem, ?_⟩
     cases c.minus <;> simp [isOctDigit]
 
+/-! ### the name `parseLine` stores -/
+
+theorem processOption_name (e : Entry) (lt k v : Bytes) : (processOption e lt k v).1.name = e.name := by
+  unfold processOption
+  repeat' split
+  all_goals rfl
+
+theorem optionsLoop_name (lt : Bytes) : ∀ (l : List Bytes) (e : Entry) (errs : List String),
+    (optionsLoop lt l e errs).1.name = e.name := by
+  intro l
+  induction l with
+  | nil => intro e errs; rfl
+  | cons s rest ih =>
+    intro e errs
+    unfold optionsLoop
+    split
+    · exact ih _ _
+    · exact ih _ _
+    · simp only
+      rw [ih]; exact processOption_name _ _ _ _
+
+theorem optionsLoop_errs (lt : Bytes) : ∀ (l : List Bytes) (e : Entry) (errs : List String),
+    ∃ extra, (optionsLoop lt l e errs).2 = errs ++ extra := by
+  intro l
+  induction l with
+  | nil => intro e errs; exact ⟨[], by simp [optionsLoop]⟩
+  | cons s rest ih =>
+    intro e errs
+    unfold optionsLoop
+    split
+    · obtain ⟨x, hx⟩ := ih e (errs ++ ["bad-option"]); exact ⟨"bad-option" :: x, by rw [hx]; simp⟩
+    · obtain ⟨x, hx⟩ := ih e (errs ++ ["bad-option"]); exact ⟨"bad-option" :: x, by rw [hx]; simp⟩
+    · simp only
+      split
+      · rename_i c _
+        obtain ⟨x, hx⟩ := ih (processOption e lt (s.take _) (s.drop _)).1 (errs ++ [c])
+        exact ⟨c :: x, by rw [hx]; simp⟩
+      · exact ih _ _
+
+/-- the name check of `parseLine` on its own (the second `let` of `parseLineFields`) -/
+def nameStage (name : Bytes) (e0 : Entry) (errs0 : List String) : Entry × List String :=
+  if name.length < 2 then (e0, errs0 ++ ["no-name"])
+  else if name.head? != some 47 then (e0, errs0 ++ ["not-absolute"])
+  else if (pathClean name).length < 2 then (e0, errs0 ++ ["no-name"])
+  else match parseSource (pathClean name) with
+    | .ok w => ({ e0 with name := pathClean name, hasWildcard := w }, errs0)
+    | .error (.err c) => (e0, errs0 ++ [c])
+    | .error .panic => (e0, errs0 ++ ["panic"])
+
+/-- `parseLineFields` is: type word, then `nameStage`, then the options loop -/
+theorem parseLineFields_stages (fields : List Bytes) : ∃ (adding : Bool) (lt : Nat) (errs0 : List String),
+    parseLineFields fields =
+      ⟨adding,
+       (optionsLoop (fields.getD 0 []) (fields.drop 2)
+          (nameStage (fields.getD 1 []) { ltype := lt } errs0).1
+          (nameStage (fields.getD 1 []) { ltype := lt } errs0).2).1,
+       (optionsLoop (fields.getD 0 []) (fields.drop 2)
+          (nameStage (fields.getD 1 []) { ltype := lt } errs0).1
+          (nameStage (fields.getD 1 []) { ltype := lt } errs0).2).2⟩ := by
+  unfold parseLineFields
+  extract_lets ltype name
+  split
+  rename_i adding lt errs0 _
+  exact ⟨adding, lt, errs0, rfl⟩
+
+theorem nameStage_name (name : Bytes) (e0 : Entry) (errs0 : List String) (h0 : e0.name = []) :
+    ((nameStage name e0 errs0).1.name = [] ∧ ∃ x, (nameStage name e0 errs0).2 = errs0 ++ [x]) ∨
+    (isAbs name = true ∧ 2 ≤ (pathClean name).length ∧
+      (nameStage name e0 errs0).1.name = pathClean name ∧ (nameStage name e0 errs0).2 = errs0) := by
+  unfold nameStage
+  split
+  · left; exact ⟨h0, _, rfl⟩
+  · split
+    · left; exact ⟨h0, _, rfl⟩
+    · rename_i hlen habs
+      split
+      · left; exact ⟨h0, _, rfl⟩
+      · split
+        · right
+          refine ⟨?_, by omega, rfl, rfl⟩
+          cases name with
+          | nil => simp at hlen
+          | cons x xs =>
+            simp at habs
+            rw [habs]; rfl
+        · left; exact ⟨h0, _, rfl⟩
+        · left; exact ⟨h0, _, rfl⟩
+
+/-- the name `parseLine` stores: empty (then an error was logged), or the cleaned second
+    field, which is absolute and at least two bytes long -/
+theorem parseLineFields_name (fields : List Bytes) :
+    ((parseLineFields fields).entry.name = [] ∧ (parseLineFields fields).errors ≠ []) ∨
+    (isAbs (fields.getD 1 []) = true ∧ 2 ≤ (pathClean (fields.getD 1 [])).length ∧
+      (parseLineFields fields).entry.name = pathClean (fields.getD 1 [])) := by
+  obtain ⟨adding, lt, errs0, h⟩ := parseLineFields_stages fields
+  rw [h]
+  simp only [optionsLoop_name]
+  rcases nameStage_name (fields.getD 1 []) { ltype := lt } errs0 rfl with ⟨h1, x, hx⟩ | ⟨h1, h2, h3, _⟩
+  · left
+    refine ⟨h1, ?_⟩
+    obtain ⟨extra, he⟩ := optionsLoop_errs (fields.getD 0 []) (fields.drop 2)
+      (nameStage (fields.getD 1 []) { ltype := lt } errs0).1 (nameStage (fields.getD 1 []) { ltype := lt } errs0).2
+    rw [he, hx]
+    simp
+  · right; exact ⟨h1, h2, h3⟩
 
 end Lc.Lemmas.StageLine
